@@ -168,6 +168,22 @@ char *strerror(int e)
 	return m;
 }
 
+#ifndef VERIF_REPLAY
+/* libc model (cbmc 6.11 ships none): first byte of s that is in accept */
+char *strpbrk(const char *s, const char *accept)
+{
+	size_t i, j;
+
+	for (i = 0; s[i] != '\0'; ++i) {
+		for (j = 0; accept[j] != '\0'; ++j) {
+			if (s[i] == accept[j])
+				return (char *)s + i;
+		}
+	}
+	return NULL;
+}
+#endif
+
 /* append to an expectation buffer */
 static size_t exp_s(char *dst, size_t o, const char *s)
 {
